@@ -747,9 +747,12 @@ def wait_bestmove(s, timeout):
     return got, st
 
 
-def small_pool(ctx, n, max_men=32, nonterminal=True):
-    """legal positions with at least one (two if asked) legal moves, for searching"""
-    pool, fam = gens.position_pool(ctx.rng, max(200, n * 3))
+def small_pool(ctx, n, max_men=32, nonterminal=True, max_officers=14):
+    """legal positions with at least one (two if asked) legal moves, for SEARCHING: constructive positions crowded
+    with promoted heavy pieces are left to the move-generation checks - their quiescence trees run to tens of
+    millions of nodes at depth 1 (minutes), which would only show up here as time-outs of the check itself"""
+    pool, fam = gens.position_pool(ctx.rng, max(200, n * 4))
+    pool = [f for f in pool if sum(1 for c in f.split()[0] if c in "nbrqNBRQ") <= max_officers]
     res = run_batch(MDRV, [f"sgen\t{f}" for f in pool])
     out = []
     for f, r in zip(pool, res):
@@ -900,7 +903,21 @@ def run_go_forms(item):
                 time.sleep(stop_after)
                 s.send("stop")
             got, st = wait_bestmove(s, 12.0)
-            extra = s.drain(0.03)
+            if st == "timeout":
+                # still searching: end it before the next form (a second `go` on top of a running search is outside
+                # the UCI precondition and would be the check's own fault); a form with a bounded budget that needs
+                # this is reported below as missing its bestmove, the process is replaced either way
+                s.send("stop")
+                g2, st2 = wait_bestmove(s, 10.0)
+                s.kill()
+                s = Session()
+                if st2 == "match" and name.startswith("depth"):
+                    # an unbudgeted fixed-depth search that is merely slow on this position and ends as soon as it
+                    # is stopped: no verdict on "exactly one bestmove" beyond that it did answer the stop
+                    b2 = [l for l in g2 if l.startswith("bestmove")]
+                    out.append((name, len(b2), b2[0].split()[1] if b2 and len(b2[0].split()) > 1 else None, "slow", ""))
+                    continue
+            extra = s.drain(0.03) if st != "timeout" else []
             bms = [l for l in got + extra if l.startswith("bestmove")]
             mv = bms[0].split()[1] if bms and len(bms[0].split()) > 1 else None
             crash = ""
@@ -942,6 +959,11 @@ def check_C03(ctx):
             ctx.case(f"{fen}|{name}")
             ctx.bump("form:" + name)
             lines = [via or f"position {fen}", cmd] + (["stop"] if "stop" in name else [])
+            if st == "slow":
+                ctx.bump("slow_depth_search_stopped")
+                if nb != 1 or mv not in ls:
+                    ctx.violation(f"go-slow:{name}:{fen}", {"kind": "history", "lines": lines + ["<12 s later> stop"], "what": f"after stopping a long fixed-depth search: {nb} bestmove lines, move {mv}", "fen": fen})
+                continue
             if nb != 1:
                 ctx.violation(f"go:{name}:{fen}", {"kind": "history", "lines": lines, "what": f"{nb} bestmove lines for one go ({st}) {crash}", "fen": fen})
             elif mv not in ls:
@@ -1153,7 +1175,10 @@ def check_C11(ctx):
             _, d_, k_ = point.split(":")
             nroot = dict(pool).get(fen, 0)
             reached = any(l.startswith(("info string vhold", "info string vexpire")) for l in got)
-            if reached and int(k_) < nroot - 1 and completed >= int(d_):
+            # exception: a root move that mates on the spot ends the iteration at once by design (`nextMoveWins`, the
+            # value cannot improve) - such an iteration IS complete although later root moves were not searched
+            mate1 = any(x["depth"] == int(d_) and x["score"] == "mate 1" for x in depths)
+            if reached and int(k_) < nroot - 1 and completed >= int(d_) and not mate1:
                 ctx.violation(f"int-partial:{fen}:{mode}:{point}", {"kind": "schedule", "lines": lines, "what": f"iteration {d_} was interrupted after root move {k_} of {nroot} but is reported as completed (info depth {completed}); the move comes from a partially searched iteration",
                                                                    "output": [l for l in got if not l.startswith('info string vsync')][-4:]})
     keys = list(need)
@@ -1902,9 +1927,18 @@ def check_C05(ctx):
         bm = [l for l in got if l.startswith("bestmove")][-1].split()[1]
         if v == "none":
             if sc.startswith("mate"):
+                # no forced mate within 3 plies, yet a mate is announced: it may be a real longer one found beyond the
+                # horizon by quiescence (C05.V_mate_exact: a depth-d search can prove mates up to d+1 plies) - ask the
+                # specification at exactly the announced length
                 k = int(sc.split()[1])
-                if abs(k) * 2 <= 4:   # a mate within 3 plies was announced but none exists
-                    ctx.violation(f"mate-unsound:{f}", {"kind": "input", "lines": lines, "what": f"engine announces {sc} but the AND/OR specification finds no forced mate within 3 plies", "output": got[-3:]})
+                nplies = 2 * k - 1 if k > 0 else 2 * abs(k)
+                if nplies <= 5:
+                    rr = run_batch(MDRV, [f"smate\t{f}\t{nplies}"], timeout_per_op=300.0)[0]
+                    want = ("win " if k > 0 else "lose ") + str(nplies)
+                    if not rr or rr[3:] != want:
+                        ctx.violation(f"mate-unsound:{f}", {"kind": "input", "lines": lines, "what": f"engine announces {sc} (a forced {'win' if k > 0 else 'loss'} in {nplies} plies) but the AND/OR specification says `{(rr or '')[3:]}` within {nplies} plies", "output": got[-3:]})
+                    else:
+                        ctx.bump("mate_beyond_horizon_confirmed")
             continue
         kind, k = v.split()
         k = int(k)
@@ -2888,6 +2922,8 @@ def check_C18(ctx):
         if lines[-1].startswith("go"):
             if st != "match":
                 ctx.violation("cap:" + "|".join(lines)[:300], {"kind": "history", "lines": [l[:2000] for l in lines], "what": f"no bestmove ({st}): {crash}"})
+            elif not ls and bm in ("0000", None):
+                ctx.bump("terminal_final_position")       # the game ended in mate / stalemate: `bestmove 0000` is the right answer
             elif bm not in ls:
                 ctx.violation("cap-illegal:" + "|".join(lines)[:300], {"kind": "history", "lines": [l[:2000] for l in lines], "what": f"bestmove {bm} not legal"})
         else:
